@@ -92,9 +92,10 @@ fn strat_family(family: &'static str, nwhich: u8) -> BoxedStrategy<RtCase> {
 
 fn vec_close(tag: &str, what: &str, a: &[f64], b: &[f64], rel: f64) -> Result<(), Fail> {
     ensure!(a.len() == b.len(), format!("{}/{}", tag, what), "observable length {} vs {}", a.len(), b.len());
-    let sc = a.iter().fold(0.0f64, |m, v| m.max(v.abs()));
+    // (NaN entries - e.g. the out-of-bag prediction of a row that every tree saw - must be NaN on both sides)
+    let sc = a.iter().filter(|v| v.is_finite()).fold(0.0f64, |m, v| m.max(v.abs()));
     for i in 0..a.len() {
-        let ok = if rel == 0.0 { a[i].to_bits() == b[i].to_bits() || (a[i].is_nan() && b[i].is_nan()) } else { (a[i] - b[i]).abs() <= rel * sc.max(1e-300) };
+        let ok = if a[i].is_nan() || b[i].is_nan() { a[i].is_nan() && b[i].is_nan() } else if rel == 0.0 { a[i].to_bits() == b[i].to_bits() } else { (a[i] - b[i]).abs() <= rel * sc.max(1e-300) };
         ensure!(ok, format!("{}/{}", tag, what), "observable entry {}: original {:e}, restored {:e}", i, a[i], b[i]);
     }
     Ok(())
@@ -299,8 +300,17 @@ fn check_trees(c: &RtCase, ctx: &mut Ctx) -> Result<(), Fail> {
     match c.which {
         0 => model!(ctx, "tree_classifier", DecisionTreeClassifier::fit(&x, &c.y_cls, tcp()), DecisionTreeClassifier::fit(&x2, &c.y2_cls, tcp()), |m: &DecisionTreeClassifier<f64>| pv(m.predict(&q))),
         1 => model!(ctx, "tree_regressor", DecisionTreeRegressor::fit(&x, &c.y_reg, trp()), DecisionTreeRegressor::fit(&x2, &c.y2_reg, trp()), |m: &DecisionTreeRegressor<f64>| pv(m.predict(&q))),
-        2 => model!(ctx, "forest_classifier", RandomForestClassifier::fit(&x, &c.y_cls, RandomForestClassifierParameters::default().with_n_trees(7).with_seed(seed).with_keep_samples(true)), RandomForestClassifier::fit(&x2, &c.y2_cls, RandomForestClassifierParameters::default().with_n_trees(5).with_seed(seed)), |m: &RandomForestClassifier<f64>| pv(m.predict(&q))),
-        _ => model!(ctx, "forest_regressor", RandomForestRegressor::fit(&x, &c.y_reg, RandomForestRegressorParameters::default().with_n_trees(7).with_seed(seed).with_keep_samples(true)), RandomForestRegressor::fit(&x2, &c.y2_reg, RandomForestRegressorParameters::default().with_n_trees(5).with_seed(seed)), |m: &RandomForestRegressor<f64>| pv(m.predict(&q))),
+        2 => model!(ctx, "forest_classifier", RandomForestClassifier::fit(&x, &c.y_cls, RandomForestClassifierParameters::default().with_n_trees(7).with_seed(seed).with_keep_samples(true)), RandomForestClassifier::fit(&x2, &c.y2_cls, RandomForestClassifierParameters::default().with_n_trees(5).with_seed(seed)), |m: &RandomForestClassifier<f64>| {
+            // predictions and, since the bootstrap masks are kept, the out-of-bag predictions
+            let mut o = pv(m.predict(&q))?;
+            o.extend(pv(m.predict_oob(&x))?);
+            Ok(o)
+        }),
+        _ => model!(ctx, "forest_regressor", RandomForestRegressor::fit(&x, &c.y_reg, RandomForestRegressorParameters::default().with_n_trees(7).with_seed(seed).with_keep_samples(true)), RandomForestRegressor::fit(&x2, &c.y2_reg, RandomForestRegressorParameters::default().with_n_trees(5).with_seed(seed)), |m: &RandomForestRegressor<f64>| {
+            let mut o = pv(m.predict(&q))?;
+            o.extend(pv(m.predict_oob(&x))?);
+            Ok(o)
+        }),
     }
     Ok(())
 }
